@@ -98,6 +98,18 @@ def py_arrays_jac(u, v):
     return np.hstack([np.diag(v + 2.0), np.diag(u)])
 
 
+class DeliberateFailure(ValueError):
+    """Raised on purpose by a harness callable wrapped in a discipline (not a harness fault)."""
+
+
+def py_guarded(a=1.0):
+    """AutoPyDiscipline body that rejects half of its domain (leaves the discipline in status FAILED)."""
+    if a >= 1.0:
+        raise DeliberateFailure("a must be lower than 1")
+    b = 2.0 * a + 1.0
+    return b
+
+
 def arr_fun(x):
     """ArrayBasedFunctionDiscipline: R^3 -> R^2."""
     return np.array([x[0] * x[1] + x[2], x[0] - 2.0 * x[2] ** 2])
@@ -348,6 +360,20 @@ reg(Recipe(
     _b_autopy, grammars=GRAMMARS, radius=1.0, base=_base_autopy, weight=2, needs_fd=lambda a: not a["jac"],
     gclasses=_gc("gemseo.disciplines.auto_py.AutoPyDiscipline"),
     notes="without py_jac the Jacobian is approximated by finite differences",
+))
+
+
+def _b_autopy_guarded(a):
+    from gemseo.disciplines.auto_py import AutoPyDiscipline
+
+    return AutoPyDiscipline(py_guarded, name="guarded" if a["named"] else "")
+
+
+reg(Recipe(
+    "AutoPyDisciplineFailing", "discipline", ("AutoPyDiscipline",), st.fixed_dictionaries({"named": st.booleans()}),
+    _b_autopy_guarded, grammars=GRAMMARS, radius=1.0, needs_fd=lambda a: True, stateful=True,
+    gclasses=_gc("gemseo.disciplines.auto_py.AutoPyDiscipline"),
+    notes="the wrapped function raises for a >= 1 (half of the generated points): life moment 'after a failed execution' (status FAILED)",
 ))
 
 
